@@ -749,6 +749,35 @@ class Analysis:
         self.assign_expr(z, x, d)
 
     # ---- fixpoint ----------------------------------------------------------------------------------
+    def _refine_edge(self, zs, b, idx, s):
+        """State on the edge #idx of block b: the branch condition (two-way branches), `x == v` on a case edge of a switch,
+        `x != v` for every case value on its default edge."""
+        fn = self.fn
+        blk = fn.blocks[b]
+        t = blk.get('term')
+        succ = blk['succ']
+        if not t or 'cond' not in t:
+            return zs
+        if t.get('kind') == 'switch':
+            def eq(v):
+                return {'k': 'bin', 'op': '==', 'l': t['cond'], 'r': {'k': 'int', 'v': v}}
+            lab = fn.blocks[s].get('label') or {}
+            if sum(1 for x in succ if x == s) != 1:
+                return zs
+            if 'case' in lab and lab['case'][0] == lab['case'][1]:
+                return self.refine(zs, eq(lab['case'][0]), True)
+            if 'case' not in lab:
+                vals = sorted({fn.blocks[x]['label']['case'][0] for x in succ if x is not None and x != s and
+                               'case' in (fn.blocks[x].get('label') or {}) and fn.blocks[x]['label']['case'][0] == fn.blocks[x]['label']['case'][1]})
+                for _ in range(2):              # ascending, then once more: each excluded value can tighten a bound that sits on it
+                    for v in vals:
+                        zs = self.refine(zs, eq(v), False)
+                return zs
+            return zs
+        if len(succ) == 2:
+            return self.refine(zs, fn.eff_cond(b), idx == 0)
+        return zs
+
     def run(self, entry_state, max_iter=60):
         fn = self.fn
         preds = {}
@@ -794,10 +823,7 @@ class Analysis:
             for idx, s in enumerate(succ):
                 if s is None:
                     continue
-                zs = z.copy()
-                if t and 'cond' in t and len(succ) == 2:
-                    c = fn.eff_cond(b)
-                    zs = self.refine(zs, c, idx == 0)
+                zs = self._refine_edge(z.copy(), b, idx, s)
                 edge_out[(b, s, idx)] = zs
                 # new in-state of s = join over incoming edges
                 acc = None
@@ -840,9 +866,7 @@ class Analysis:
                 for idx, s in enumerate(succ):
                     if s is None:
                         continue
-                    zs = z.copy()
-                    if t and 'cond' in t and len(succ) == 2:
-                        zs = self.refine(zs, fn.eff_cond(b), idx == 0)
+                    zs = self._refine_edge(z.copy(), b, idx, s)
                     edge_out[(b, s, idx)] = zs
         self.inn = inn
         return inn
